@@ -112,6 +112,27 @@ func checkCfgCase(c *cfgCase) (diff string) {
 			return fmt.Sprintf("contents truncated to %d of %d bytes (lengths consistent) are accepted: %+v", k, len(c.Cuts), got)
 		}
 	}
+	// parsing again gives the same answer, whatever the caller did with the bytes and with the result of the first call
+	if len(wantBytes) > 2 && len(want) > 0 {
+		b1 := bytes.Clone(cfgs[0])
+		if sp1, err := ech.Config(b1).Spec(); err == nil {
+			for i := range b1 {
+				b1[i] ^= 0xa5
+			}
+			for _, f := range [][]byte{sp1.PublicKey, sp1.PublicName} {
+				for i := range f {
+					f[i] ^= 0x5a
+				}
+			}
+			for i := range sp1.CipherSuites {
+				sp1.CipherSuites[i] = ech.CipherSuite{KDF: 0xdead, AEAD: 0xbeef}
+			}
+			sp2, err := ech.Config(bytes.Clone(cfgs[0])).Spec()
+			if err != nil || !sameSpec(sp2, want[0]) {
+				return fmt.Sprintf("the second Spec() of the same config bytes (after the caller overwrote its buffer and the first result): %+v err=%v, want %+v", sp2, err, want[0])
+			}
+		}
+	}
 	for k, d := range c.XCuts {
 		got, err := ech.ParseConfigList(ib(d))
 		if k < len(c.XCuts)-1 && err == nil {
@@ -291,7 +312,7 @@ func TestEchConfigCases(t *testing.T) {
 		nodes := encFault.counter
 		encFault = nil
 		for node := 1; node <= nodes; node++ {
-			for _, kind := range []string{"plus1", "minus1", "trunc"} {
+			for _, kind := range []string{"plus1", "minus1", "trunc", "zero", "fffc", "ffff"} {
 				encFault = &faultCtx{target: node, kind: kind, enabled: true}
 				b := mk()
 				encFault = nil
